@@ -501,6 +501,10 @@ func (css *Consensus) batchWorker() {
 			// Commit
 			if err := css.batchingState.Commit(css.ctx); err != nil {
 				logger.Errorf("error commiting batch after reaching max age: %s", err)
+				// The timer has expired and its channel has been
+				// drained. Re-arm it so that the commit is retried
+				// and a later size-triggered commit can stop it.
+				batchTimer.Reset(maxAge)
 				continue
 			}
 			logger.Debugf("batch commit (max age): %d items", batchCurSize)
